@@ -114,6 +114,14 @@ func (m *boxModel) apply(fn string, args []string) (panics bool) {
 			n = m.logLen
 		}
 		m.logLen -= n
+	case "Record":
+		m.logLen += ai(0)
+	case "Forget":
+		n := ai(0)
+		if n > m.logLen {
+			n = m.logLen
+		}
+		m.logLen -= n
 	case "PairBump":
 		m.a++
 		m.b++
